@@ -10,8 +10,6 @@ import (
 	"bytes"
 	"encoding/json"
 	"fmt"
-	"os"
-	"runtime/pprof"
 	"sort"
 	"strings"
 	"sync"
@@ -549,11 +547,6 @@ func (stubConsensus) GetConsensusStatus() (base.ConsensusStatus, error)   { retu
 
 func run(tier core.Tier) *core.Report {
 	rep := core.NewReport("C13", tier, "model_checking")
-	if pf := os.Getenv("C13_DEV_PROF"); pf != "" {
-		f, _ := os.Create(pf)
-		pprof.StartCPUProfile(f)
-		defer pprof.StopCPUProfile()
-	}
 	setup()
 	var cases []Case
 	for _, f := range families {
@@ -663,10 +656,6 @@ func run(tier core.Tier) *core.Report {
 				}
 			}
 		}()
-	}
-	if os.Getenv("C13_DEV_ONLY_TIMER") != "" { // development aid: the run is then reported as not exhaustive
-		cases = nil
-		stopped = true
 	}
 	for _, c := range cases {
 		jobs <- c
